@@ -28,13 +28,18 @@ RULE = ("integer representations (int64 x int64): every ordered pair of the ten 
         "periods that are not in lowest terms (ratio<10,14>, ratio<-1001,-30000>).  Floating point (double x double on all "
         "100 pairs; int64 x double and double x int64 on 9 pairs): counts k/8 for k in [-2000, 2000] (every half is a tie) "
         "and seeded random magnitudes, compared bit for bit.  time_point: the same functions through "
-        "time_point_cast / floor / ceil / round / comparisons / += / -= / ++ / --.  A line carries up to 64 evaluations.  "
+        "time_point_cast / floor / ceil / round / comparisons / += / -= / ++ / --, and time_point + duration, duration + "
+        "time_point, time_point - duration, time_point - time_point on 36 ordered pairs of int64 periods (ring of first "
+        "counts x fixed, seeded and large second counts, result in the common period) and on the int32 / mixed pairs.  "
+        "duration * rep, rep * duration, duration / rep, duration % rep: every period x duration representation int32/int64 x "
+        "scalar type int32/int64 (mixed pairs: the result has the wider representation) x counts x fixed, seeded and large "
+        "scalars, restricted to representable products and to divisors other than 0 and min / -1; double x double.  A line carries up to 64 evaluations.  "
         "A line is non-trivial when its expected results are not all equal; distinct = distinct line text.")
 ASSUMPTIONS = ["std::chrono of libstdc++ 12 is the reference for spec validation (R2); the Lean spec (exact core `Rat` arithmetic) "
                "is the primary oracle and replaces the __int128 arithmetic of the design",
                "a representation is modelled as (width, signed) for int32/int64; narrower or unsigned representations are not explored",
                "floating-point representations: IEEE-754 binary64 on both sides (Lean `Float`, x86-64 SSE2 double), no theorem",
-               "ratio / ratio_divide / common_type are compile-time constants: an overflow there is a compile error, modelled as an error value"]
+               "ratio / ratio_multiply / ratio_divide / common_type are compile-time constants: an overflow there is a compile error, modelled as an error value"]
 TRUSTED = ["hand model Tetl/C12/Model.lean (incl. the four duration_cast_impl::cast bodies, modelled by hand) tied to the source by the "
            "correspondence run (R1) on every run",
            "gcd/lcm: the C14 model and its theorems (TetlProofs/C14) are reused",
@@ -68,7 +73,7 @@ def enabled(r1, r2, k1, k2):
 def tp_enabled(r1, r2, k1, k2):
     if (r1, r2) == ("i64", "i64"):
         return (k1 in TPSET and k2 in TPSET) or k1 >= 10 or k2 >= 10
-    if (r1, r2) == ("f64", "f64"):
+    if (r1, r2) == ("f64", "f64") or "f64" not in (r1, r2):
         return k1 in SUB and k2 in SUB
     return False
 
@@ -159,11 +164,20 @@ def dom2(op, r1, k1, r2, k2, a, b=0):
     raise ValueError(op)
 
 
-def dom1(op, r, a, b):
+def dom1(op, r, a, b, rs=None):
     w = W[r]
     op = op[3:] if op.startswith("tp_") else op
     if not fits(w, a):
         return False
+    if op in ("mul", "divr", "modr"):
+        # duration<r> op scalar of type rs: evaluated in common_type_t<r, rs> (MulIn / DivIn of Props.lean)
+        ws = W[rs or r]
+        wc = max(w, ws)
+        if not fits(ws, b):
+            return False
+        if op == "mul":
+            return fits(wc, a * b)
+        return b != 0 and not (a == -(1 << (wc - 1)) and b == -1)
     if op in ("abs", "neg"):
         return fits(w, -a)
     if op == "pos":
@@ -172,9 +186,9 @@ def dom1(op, r, a, b):
         return fits(w, a + 2) and fits(w, a - 2)
     if op in ("adda", "suba"):
         return fits(w, b) and fits(w, a + b) and fits(w, a - b)
-    if op in ("mula", "mul"):
+    if op == "mula":
         return fits(w, b) and fits(w, a * b)
-    if op in ("diva", "moda", "modad", "divr", "modr"):
+    if op in ("diva", "moda", "modad"):
         return fits(w, b) and b != 0 and not (a == -(1 << (w - 1)) and b == -1)
     if op == "limits":
         return True
@@ -187,8 +201,8 @@ OPS_CAST = ["cast", "floor", "ceil", "round"]
 OPS_BIN = ["add", "sub", "div", "mod", "cmp", "common"]
 OPS_TP2 = ["tp_cast", "tp_floor", "tp_ceil", "tp_round", "tp_cmp", "tp_conv"]
 OPS_ONE = ["abs", "neg", "pos", "inc", "dec", "adda", "suba", "mula", "diva", "moda", "modad", "tp_adda", "tp_suba", "tp_inc"]
-MISSING2 = ["tp_plus", "tp_minus", "tp_diff"]
-MISSING1 = ["mul", "divr", "modr"]
+OPS_TPD = ["tp_plus", "tp_minus", "tp_diff"]          # [time.point.nonmember]
+OPS_SCALAR = ["mul", "divr", "modr"]                   # [time.duration.nonmember]: duration and a tick count
 
 
 def lst(xs):
@@ -217,17 +231,18 @@ def generate(tier, seed):
         cases.append(Case(line, tag))
         dist[tag] = dist.get(tag, 0) + n
 
-    def emit(op, r1, k1, r2, k2, avals, b=None, fp=False):
+    def emit(op, r1, k1, r2, k2, avals, b=None, fp=False, rs=None):
         """chunked list lines, only in-domain counts"""
         if fp:
             ok = list(avals)
         elif r2 is None:
-            ok = [a for a in avals if dom1(op, r1, a, b or 0)]
+            ok = [a for a in avals if dom1(op, r1, a, b or 0, rs)]
         else:
             ok = [a for a in avals if dom2(op, r1, k1, r2, k2, a, b or 0)]
-        head = "%s r1=%s p1=%d" % (op, r1, k1) + ("" if r2 is None else " r2=%s p2=%d" % (r2, k2))
+        head = ("%s r1=%s p1=%d" % (op, r1, k1) + ("" if r2 is None else " r2=%s p2=%d" % (r2, k2))
+                + ("" if rs is None else " rs=%s" % rs))
         tail = "" if b is None else " b=%d" % b
-        tag = "%s/%s%s" % (op, r1, "" if r2 is None else "," + r2)
+        tag = "%s/%s%s" % (op, r1, "" if r2 is None else "," + r2) + ("" if rs is None else "*" + rs)
         for i in range(0, len(ok), CHUNK):
             ch = ok[i:i + CHUNK]
             add("%s as=%s%s" % (head, lst(ch), tail), tag, len(ch))
@@ -262,8 +277,10 @@ def generate(tier, seed):
             if tp_enabled("i64", "i64", k1, k2):
                 for op in OPS_TP2:
                     emit(op, "i64", k1, "i64", k2, ring + big[::3], 5)
-                for op in MISSING2:
-                    emit(op, "i64", k1, "i64", k2, [-7, 0, 9], 5)
+                for op in OPS_TPD:            # different periods: the result is in the common period
+                    for b in (bs_fixed if thorough else [-7, 3]) + [rnd.randint(-2000, 2000), rnd.choice(big)]:
+                        emit(op, "i64", k1, "i64", k2, (small if (thorough and b == 3) else ring) + big[::3], b)
+                    emit(op, "i64", k1, "i64", k2, big, rnd.choice(big))
 
     # ---- int32 and mixed representations
     i32big = sorted({(1 << 31) - 1 - k for k in range(4)} | {-(1 << 31) + k for k in range(4)}
@@ -277,6 +294,9 @@ def generate(tier, seed):
                 for op in OPS_BIN:
                     for b in bs_fixed + [rnd.choice(i32big)]:
                         emit(op, r1, k1, r2, k2, ring + a_big, b)
+                for op in OPS_TPD:
+                    for b in bs_fixed + [rnd.choice(i32big)]:
+                        emit(op, r1, k1, r2, k2, ring + a_big, b)
                 add("ctype r1=%s p1=%d r2=%s p2=%d a=0" % (r1, k1, r2, k2), "ctype/%s,%s" % (r1, r2))
 
     # ---- one-type operations
@@ -286,8 +306,12 @@ def generate(tier, seed):
             for op in OPS_ONE:
                 for b in ([0] if op in ("abs", "neg", "pos", "inc", "dec", "tp_inc") else [-7, -1, 1, 3, rnd.choice(a_big)]):
                     emit(op, r1, k1, None, None, ring + a_big, b)
-            for op in MISSING1:
-                emit(op, r1, k1, None, None, [-7, 0, 9], 3)
+            # duration<r1> (* / %) scalar of type rs, incl. the mixed pairs (the result has the wider representation)
+            for rs in ("i32", "i64"):
+                s_big = i32big if rs == "i32" else big
+                for op in OPS_SCALAR:
+                    for b in ([-7, -1, 1, 2, 3, 1000] if thorough else [-7, -1, 3]) + [rnd.randint(-2000, 2000), rnd.choice(s_big), rnd.choice(s_big)]:
+                        emit(op, r1, k1, None, None, ((small if thorough else ring) if b in (-7, 3) else ring) + a_big, b, rs=rs)
             add("limits r1=%s p1=%d a=0" % (r1, k1), "limits/" + r1)
 
     # ---- floating point: counts a/8 (every half is a tie of `round`)
@@ -305,10 +329,10 @@ def generate(tier, seed):
                         emit(op, r1, k1, r2, k2, ring + fbig, b, fp=True)
                 add("ctype r1=%s p1=%d r2=%s p2=%d a=0" % (r1, k1, r2, k2), "ctype/%s,%s" % (r1, r2))
                 if tp_enabled(r1, r2, k1, k2):
-                    for op in ("tp_cast", "tp_floor", "tp_ceil", "tp_cmp", "tp_conv"):
+                    for op in ("tp_cast", "tp_floor", "tp_ceil", "tp_cmp", "tp_conv", "tp_plus", "tp_minus", "tp_diff"):
                         emit(op, r1, k1, r2, k2, ring, 5, fp=True)
     for k1 in range(12):
-        for op in ("abs", "neg", "pos", "inc", "dec", "adda", "suba", "mula", "diva", "tp_adda", "tp_suba", "tp_inc"):
+        for op in ("abs", "neg", "pos", "inc", "dec", "adda", "suba", "mula", "diva", "mul", "divr", "tp_adda", "tp_suba", "tp_inc"):
             for b in ([0] if op in ("abs", "neg", "pos", "inc", "dec", "tp_inc") else [-7, 3]):
                 emit(op, "f64", k1, None, None, ring + fbig, b, fp=True)
         add("limits r1=f64 p1=%d a=0" % k1, "limits/f64")
@@ -323,17 +347,9 @@ def nontrivial(case, rows):
     return len(set(_items(rows[0].spec))) > 1
 
 
-MISSING_OPS = {"mul": "F-C12-duration-rep-operators-missing", "divr": "F-C12-duration-rep-operators-missing",
-               "modr": "F-C12-duration-rep-operators-missing", "tp_plus": "F-C12-time-point-operators-missing",
-               "tp_minus": "F-C12-time-point-operators-missing", "tp_diff": "F-C12-time-point-operators-missing"}
-
-
 def classify(case, k, row):
-    """known finding: the free function is not declared at all (the harness detects it with a requires-expression).
-    Class predicate: the operation is one of the six missing free functions AND the implementation reports `missing`."""
-    op = case.lines[k].split(" ")[0]
-    if op in MISSING_OPS and set(_items(row.impl)) == {"missing"}:
-        return MISSING_OPS[op]
+    """no known finding is open: every impl != spec is a violation (in particular `missing`, which the harness prints when
+    one of the free functions of [time.duration.nonmember] / [time.point.nonmember] is not declared)"""
     return None
 
 
@@ -358,7 +374,7 @@ def _build_parts(src, out_name, extra_flags=(), repo=None, std_flags=None):
     h = hashlib.sha256()
     for f in (srcp, os.path.join(lib.VERIF, "harness", "proto.hpp")):
         h.update(open(f, "rb").read())
-    h.update(" ".join(flags).encode())
+    h.update((" ".join(flags) + " NPARTS=%d" % NPARTS).encode())
     h.update(lib.sh([lib.CXX, "--version"])[1].encode())
     key = h.hexdigest()[:12]
     tag = "%s_%d" % (out_name, os.getpid())
@@ -449,19 +465,22 @@ def run(ctx, replay=None):
 
 CLAIMED = True
 TECHNIQUE = ("Lean 4 proof: hand model of ratio / ratio_divide / common_type / the four duration_cast bodies / converting "
-             "constructor / operators / floor / ceil / round / abs (C++ integer types, overflow = error) = exact rational (Q) "
+             "constructor / operators (incl. duration and tick count, time_point and duration) / floor / ceil / round / abs "
+             "(C++ integer types, overflow = error) = exact rational (Q) "
              "semantics for all periods and counts in the documented domain; model tied to the code by an exhaustive-box + "
              "boundary + seeded correspondence run against the implementation and libstdc++")
 LEVEL_TEXT = ("duration_cast (all four duration_cast_impl bodies), the conversion to the common type (the converting constructor and "
               "common_type = gcd of numerators / lcm of denominators), == != < <= > >=, + and - of two durations, floor, ceil, "
-              "round (nearest, ties to even), abs, unary minus, the compound assignments += -= *= (also as used by time_point), "
-              "duration / duration and duration % duration are proved in Lean 4 — for every pair of periods with positive numerator and denominator, every signed 32..64-bit "
+              "round (nearest, ties to even), abs, unary minus and plus, the converting constructors of duration and time_point, the compound assignments += -= *= /= %= (also as used by time_point), "
+              "duration / duration and duration % duration, duration * rep, rep * duration, duration / rep, duration % rep, "
+              "time_point + duration, duration + time_point, time_point - duration and time_point - time_point are proved in Lean 4 — for every pair of periods with positive numerator and denominator, every signed 32..64-bit "
               "representation and every tick count for which the intermediate products and the exact result are representable — "
               "to return (never an error: no signed overflow, no division by zero, no constructor dropped from overload "
               "resolution) exactly the value that exact rational arithmetic over Q prescribes: trunc / floor / ceil / "
               "round-half-even of c*p/q, comparison of the two values in seconds, and a sum / difference whose value in seconds is "
-              "the sum / difference of the operands, the truncated quotient of the two values, the exact remainder. The members "
-              "listed in coverage.correspondence_only (/= and %=, unary +, the named aliases, zero/min/max) and every operation on floating-point representations are compared "
+              "the sum / difference of the operands, the truncated quotient of the two values, the exact remainder, c*s ticks for a "
+              "product with a tick count, the truncated quotient and the exact remainder of a division by a tick count. The members "
+              "listed in coverage.correspondence_only (the named aliases, zero/min/max) and every operation on floating-point representations are compared "
               "differentially only. The model is tied to the current source on every run by running model, implementation, Lean "
               "spec and libstdc++ on the same inputs under ASan/UBSan: all 100 ordered period pairs x all counts in [-2000, 2000] "
               "for the four casts (int64), boundary values around 2^31 and 2^62, int32 and mixed representations, periods not in "
@@ -469,14 +488,23 @@ LEVEL_TEXT = ("duration_cast (all four duration_cast_impl bodies), the conversio
 LEVEL_NOTE = ("Trusted: Lean kernel + propext/Classical.choice/Quot.sound; the hand model's fidelity outside the explored inputs "
               "(templates are modelled at the value level: a duration type is (representation, period)); the C14 gcd/lcm model; "
               "g++-12/ASan/UBSan; libstdc++ std::chrono as oracle for spec validation. The hypotheses of the theorems are decidable "
-              "predicates (RepOk, PerOk, DivOk, CommonOk, CastIn, PairIn, RoundIn) that the generator evaluates with exact integers; "
+              "predicates (RepOk, PerOk, DivOk, CommonOk, CastIn, PairIn, RoundIn, ScalarTyOk, MulIn, DivIn) that the generator evaluates with exact integers; "
               "narrower or unsigned representations are outside the theorems and the exploration. Floating-point "
-              "representations have no theorem (coverage.unproved_observed). The free functions duration*rep, duration/rep, "
-              "duration%rep and time_point+-duration, time_point-time_point do not exist in tetl (known findings).")
+              "representations have no theorem (coverage.unproved_observed). A time_point is modelled as its time_since_epoch(); the "
+              "free functions of [time.duration.nonmember] / [time.point.nonmember] were added to tetl by two fix commits (fixed "
+              "findings); if one of them is not declared the harness prints `missing`, which is a violation. "
+              "DEVIATION from the property text ('every tick count whose exact result is representable'): the theorems cover "
+              "the tick counts for which every INTERMEDIATE of the code is representable (c*CF::num in intmax_t; for floor/ceil "
+              "also the operands of the comparison and cast +/- 1; for round the eleven conjuncts of RoundIn) - that is the "
+              "UB-free domain of the code as written (and of libstdc++); an input whose exact result is representable only "
+              "through 128-bit intermediates, e.g. duration_cast<duration<i64, ratio<1,3>>>(duration<i64, ratio<5,7>>{2^62}), "
+              "is outside every theorem and outside the generator (which evaluates the same predicates).")
 # members modelled and compared on every run but without a Lean theorem yet
-CORRESPONDENCE_ONLY = ["duration::operator/=", "duration::operator%=",
-                       "duration::operator+ (unary)", "named duration aliases (periods of nanoseconds … years)",
-                       "duration::zero/min/max, time_point::min/max", "time_point converting constructor",
+CORRESPONDENCE_ONLY = ["named duration aliases (periods of nanoseconds … years)",
+                       "duration::zero/min/max, time_point::min/max",
+                       "time_point is not an object of the model: operator+=/-=/++/--, the comparisons, time_point_cast and "
+                       "floor/ceil/round(time_point) forward to the duration functions and are covered through the duration "
+                       "theorems; the forwarding itself is tied by the harness (R1/R3) only",
                        "all operations on floating-point representations"]
 THEOREMS = {
     "cast": ["C12.Props.durationCast_eq"], "tp_cast": ["C12.Props.durationCast_eq"],
@@ -486,9 +514,13 @@ THEOREMS = {
     "add": ["C12.Props.add_exact"], "sub": ["C12.Props.sub_exact"],
     "cmp": ["C12.Props.eq_eq", "C12.Props.lt_eq", "C12.Props.cmp_derived_eq"],
     "tp_cmp": ["C12.Props.eq_eq", "C12.Props.lt_eq", "C12.Props.cmp_derived_eq"],
-    "common": ["C12.Props.common_exact"], "ctype": ["C12.Props.commonPeriod_eq"], "conv": ["C12.Props.common_exact"],
+    "common": ["C12.Props.common_exact"], "ctype": ["C12.Props.commonPeriod_eq"],
+    "conv": ["C12.Props.common_exact", "C12.Props.convert_exact"], "tp_conv": ["C12.Props.convert_exact"], "pos": ["C12.Props.pos_eq"],
     "abs": ["C12.Props.abs_eq"], "neg": ["C12.Props.neg_eq"],
     "adda": ["C12.Props.addAssign_eq"], "tp_adda": ["C12.Props.addAssign_eq"], "inc": ["C12.Props.addAssign_eq"],
     "suba": ["C12.Props.subAssign_eq"], "tp_suba": ["C12.Props.subAssign_eq"], "dec": ["C12.Props.subAssign_eq"],
     "mula": ["C12.Props.mulAssign_eq"], "div": ["C12.Props.div_eq"], "mod": ["C12.Props.mod_exact"],
+    "diva": ["C12.Props.divAssign_eq"], "moda": ["C12.Props.modAssign_eq"], "modad": ["C12.Props.modAssign_eq"],
+    "mul": ["C12.Props.mulRep_exact"], "divr": ["C12.Props.divRep_exact"], "modr": ["C12.Props.modRep_exact"],
+    "tp_plus": ["C12.Props.tpPlus_exact"], "tp_minus": ["C12.Props.tpMinus_exact"], "tp_diff": ["C12.Props.tpDiff_exact"],
 }
